@@ -1393,11 +1393,13 @@ class TypeSystemDeserializer:
         # between type references in inheritance and type references in range or element type.
         for t in created_types:
             for f in features[t.name]:
+                # Pass type names: the Type objects in `f` are the temporary ones created while parsing,
+                # not the ones registered in `ts`
                 ts.create_feature(
                     t,
                     name=f.name,
-                    rangeType=f.rangeType,
-                    elementType=f.elementType,
+                    rangeType=f.rangeType.name,
+                    elementType=f.elementType.name if f.elementType is not None else None,
                     description=f.description,
                     multipleReferencesAllowed=f.multipleReferencesAllowed,
                 )
